@@ -96,6 +96,22 @@ class _Boom(Exception):
     pass
 
 
+U8 = ' caf\xe9 \u4e2d\u6587 \U0001F600'
+
+
+def _msg(text):
+    """the text of an exception / message of the test application: with ext u8 it carries multi-byte characters, so
+    that every page the framework builds around it (error template with traceback, bare_error, the appended note
+    of a failing custom page, XML-RPC faults) has more bytes than characters"""
+    if (CUR.get('case') or {}).get('ext', {}).get('u8'):
+        return text + U8
+    return text
+
+
+def _target():
+    return '/targ\xe9t-\u4e2d' if (CUR.get('case') or {}).get('ext', {}).get('u8') else '/target'
+
+
 def _nest(leaves):
     """A nested generator as deep as it has leaves: it yields its first leaf and then, if there are more, a
     generator over the rest (bytes / str leaves; a raising leaf raises inside the generator that reaches it)."""
@@ -104,7 +120,7 @@ def _nest(leaves):
             yield _nest(leaves[i:])
             return
         if k == 'r':
-            raise _Boom('nested generator failed')
+            raise _Boom(_msg('nested generator failed'))
         yield x
 
 
@@ -115,7 +131,7 @@ def _gen(chunks):
         elif k == 'n':
             yield _nest(list(v))
         elif k == 'r':
-            raise _Boom('handler generator failed')
+            raise _Boom(_msg('handler generator failed'))
 
 
 class _ClosableIter(object):
@@ -132,7 +148,7 @@ class _ClosableIter(object):
         return next(self._it)
 
     def close(self):
-        raise _Boom('close failed')
+        raise _Boom(_msg('close failed'))
 
 
 class _Reader(object):
@@ -254,11 +270,11 @@ def _handle():
             raise cherrypy.HTTPError(int(st[1:]), 'custom m\xe9ssage \u20ac <b>&</b> ' + 'x' * 40)
         raise cherrypy.HTTPError(int(st[1:]))
     elif st == 'r0':
-        raise cherrypy.HTTPRedirect('/target')
+        raise cherrypy.HTTPRedirect(_target())
     elif st[0] == 'r':
-        raise cherrypy.HTTPRedirect('/target', int(st[1:]))
+        raise cherrypy.HTTPRedirect(_target(), int(st[1:]))
     elif st == 'x':
-        raise _Boom(chunks[0][1] if kind == 'R' and chunks else 'handler failed')
+        raise _Boom(chunks[0][1] if kind == 'R' and chunks else _msg('handler failed'))
     if kind == 'R':
         return chunks[0][1] if chunks else ''
     return make_body(kind, chunks)
@@ -307,14 +323,14 @@ def _error_page(**kwargs):
     if kind == 'iter':
         return (x for x in ['oo', b'', 'p\xe9s'])   # str and bytes chunks: wrapped in UTF8StreamEncoder
     if kind == 'raise':
-        raise _Boom('error page failed')            # -> built-in template + appended note
+        raise _Boom(_msg('error page failed'))            # -> built-in template + appended note
     if kind == 'int':
         return 5                                    # -> ValueError inside get_error_page -> same fallback
     return PAGES[kind]
 
 
 def _failing_error_response():
-    raise _Boom('error_response failed')
+    raise _Boom(_msg('error_response failed'))
 
 
 ER_BODY = b'custom error response'
@@ -329,7 +345,7 @@ def _custom_error_response():
 
 
 def _redirecting_error_response():
-    raise cherrypy.HTTPRedirect('/target', int(CUR['case']['ext']['er'][1:]))
+    raise cherrypy.HTTPRedirect(_target(), int(CUR['case']['ext']['er'][1:]))
 
 
 def _record_stream():
@@ -354,11 +370,11 @@ def _probe():
     REC['probe_fired'] = True
     resp = cherrypy.serving.response
     if act == 'x':
-        raise _Boom('hook failed')
+        raise _Boom(_msg('hook failed'))
     if act[0] == 'e':
         raise cherrypy.HTTPError(int(act[1:]))
     if act[0] == 'r':
-        raise cherrypy.HTTPRedirect('/target', int(act[1:]))
+        raise cherrypy.HTTPRedirect(_target(), int(act[1:]))
     if act[0] == 's':
         resp.status = int(act[1:])
     elif act[0] == 'w':
@@ -426,6 +442,8 @@ def make_app(case):
         conf['tools.staticfile.content_types'] = {EXT[case.get('ct', 'html')]: CTS[case.get('ct', 'html')]}
     if ext.get('tb'):
         conf['request.show_tracebacks'] = True
+    if ext.get('throw'):
+        conf['request.throw_errors'] = True       # errors reach the WSGI exception trapper (its own bare 500)
     conf['tools.encode.on'] = 'encode' in tools     # (the global default is on)
     if ext.get('encu') and 'encode' in tools:
         conf['tools.encode.encoding'] = 'utf-8'
@@ -485,7 +503,10 @@ def environ_for(req, case=None):
     case = case or {}
     kindR = str(case.get('body', '')).startswith('R:')
     # ns = 1: an index resource without its slash; ns = 2: a non-index one with a slash too many
-    path = '/rpc' if kindR else {0: '/', 1: '/sub', 2: '/sub/leaf/'}[int(req.get('ns', 0))]
+    # ns = 3: a path nothing is mounted at, with multi-byte characters (echoed in the 404 page); PATH_INFO carries the
+    # UTF-8 bytes as latin-1 characters (PEP 3333)
+    path = '/rpc' if kindR else {0: '/', 1: '/sub', 2: '/sub/leaf/',
+                                 3: '/nosuch-\xe9-\u4e2d\u6587'.encode('utf-8').decode('latin-1')}[int(req.get('ns', 0))]
     env = {
         'REQUEST_METHOD': req.get('m', 'GET'), 'SCRIPT_NAME': '', 'PATH_INFO': path,
         'QUERY_STRING': '', 'SERVER_PROTOCOL': 'HTTP/1.0' if str(req.get('proto', '11')) == '10' else 'HTTP/1.1',
